@@ -136,7 +136,7 @@ NearestWithinHalfStride ==
     (stage = "input" /\ cfg.kind = "cm1" /\ cfg.p[1] >= 0 /\ cfg.p[1] <= 4 * (Side - cfg.s) /\ cfg.p[2] >= 0 /\ cfg.p[2] <= 4 * (Side - cfg.s))
     => \A idx \in NearestCells(CmCase(cfg), cfg.p) : CellD16(CmCase(cfg), {cfg.p}, idx) <= 8 * cfg.s * cfg.s
 PafLemmas ==
-    (stage = "input" /\ cfg.kind = "paf" /\ EdgeClass(cfg.a, cfg.b) \in {"ok", "sub"}) =>
+    (stage = "input" /\ cfg.kind = "paf" /\ EdgeClass(cfg.a, cfg.b) = "ok") =>
     LET c == PafCaseIn(cfg)
         vv == Sq(cfg.b[1] - cfg.a[1]) + Sq(cfg.b[2] - cfg.a[2])
     IN \A idx \in 1..(PafRows(c) * PafCols(c)) :
